@@ -33,6 +33,7 @@ type Opts struct {
 	MinDepth    int  // minimal account depth (default 2)
 	MaxDepth    int  // maximal account depth (default 4)
 	EquityEquity bool // make sure Equity:Equity is among the accounts
+	Depth1       bool // also book directly on a bare type account ("Expenses", "Assets", ...)
 }
 
 func DefaultOpts(r *rand.Rand) Opts {
@@ -106,6 +107,12 @@ func MakeAccounts(r *rand.Rand, n int, o Opts) []string {
 	}
 	if o.EquityEquity {
 		add("Equity:Equity")
+	}
+	if o.Depth1 {
+		add(pick(r, TypeNames))
+		if r.Intn(2) == 0 {
+			add(pick(r, TypeNames))
+		}
 	}
 	mk := func(t string) string {
 		depth := minD + r.Intn(maxD-minD+1)
